@@ -76,6 +76,13 @@ CHECKS = [
         "text": "Decides the structural sources of traced/untraced divergence and of non-volatile trace differences: trace-only blocks of execute neither rebind nor mutate data/context/payload/nodes and trace helpers do not mutate their live arguments; every hand-over of a live object to overridable code in the trace path is contained by a try (directly or at all callers) and no trace code consumes an object not known to be re-iterable; uncontained serialisation sinks in SER construction receive only the sanitised preprocessor metadata whose leaves are JSON-safe; orchestrators keep no accumulating instance/module state feeding records; every driver call is dominated by a presence test; the caller-owned canonical spec is never mutated.",
         "note": "Payload classes with side-effecting hooks are outside static reach (the framework does not cause the difference). assertions.environment is classified as environment. Byte equality of traces is not decided.",
     },
+    {
+        "property_id": "C18",
+        "design_ref": "DESIGN.md section 3, C18",
+        "technique": "static analysis: who-may-accumulate scan over module-, class- and instance-level containers with growing mutation sites against a frozen table of bounded registries, weak-container rule for the component registry, stdlib process-registrar / unbounded-cache scan, publish/subscribe pairing",
+        "text": "Decides the structural sources of per-run growth: the metaclass inserts component classes into a weak container and the registry getter returns a snapshot; the module- and class-level containers that any function grows are exactly the eleven frozen registries whose insertion is keyed by a configuration-determined name or guarded by membership; no weakref.finalize / atexit / unbounded memo is fed at run time; orchestrators, Pipeline, transports, drivers, executors and emitters grow no instance container per run beyond two frozen, released ones; every transport.publish has a subscriber pattern that can consume it. One site (local orchestrator publishing node outputs nobody consumes) is recorded as known finding F-C18b.",
+        "note": "Assumes the garbage collector reclaims unreferenced classes/objects and that registration-time names are configuration-determined. Measured gc counts are not decided.",
+    },
 ]
 _TODO = "check not built yet in this session (planned: DESIGN.md section 3); not claimed until its rules run clean and fire on their variants"
 NOT_APPLICABLE = [
